@@ -21,6 +21,12 @@ pub struct SpiWorld {
     pub transactions: u32,
     pub budget: u32,
     pub non_write_ops: u32,
+    // reset pin sharing the same operation counter
+    pub rst_calls: u32,
+    pub rst_is_low: bool,
+    pub rst_final_high: bool,
+    pub spi_while_rst_low: u32,
+    pub spi_before_rst: u32,
 }
 impl SpiWorld {
     pub fn new(fail_at: u32, probe_idx: u32, budget: u32, dc_high: bool) -> Self {
@@ -40,6 +46,11 @@ impl SpiWorld {
             transactions: 0,
             budget,
             non_write_ops: 0,
+            rst_calls: 0,
+            rst_is_low: false,
+            rst_final_high: false,
+            spi_while_rst_low: 0,
+            spi_before_rst: 0,
         }
     }
     #[inline(always)]
@@ -66,6 +77,12 @@ impl SpiDevice for SpiDev {
     fn transaction(&mut self, operations: &mut [Operation<'_, u8>]) -> Result<(), E> {
         let w = unsafe { &mut *self.0 };
         w.transactions += 1;
+        if w.rst_is_low {
+            w.spi_while_rst_low += 1;
+        }
+        if w.rst_calls == 0 {
+            w.spi_before_rst += 1;
+        }
         assert!(w.transactions <= w.budget, "[C06][C20] SPI transaction budget exceeded (non-termination or per-pixel flushing)");
         w.op(E_SPI)?;
         for op in operations {
@@ -85,6 +102,28 @@ impl SpiDevice for SpiDev {
                 w.non_write_ops += 1;
             }
         }
+        Ok(())
+    }
+}
+pub struct SpiRst(pub *mut SpiWorld);
+impl DErr for SpiRst {
+    type Error = E;
+}
+impl OutputPin for SpiRst {
+    fn set_low(&mut self) -> Result<(), E> {
+        let w = unsafe { &mut *self.0 };
+        w.rst_calls += 1;
+        w.op(crate::env::E_RST)?;
+        w.rst_is_low = true;
+        w.rst_final_high = false;
+        Ok(())
+    }
+    fn set_high(&mut self) -> Result<(), E> {
+        let w = unsafe { &mut *self.0 };
+        w.rst_calls += 1;
+        w.op(crate::env::E_RST)?;
+        w.rst_is_low = false;
+        w.rst_final_high = true;
         Ok(())
     }
 }
